@@ -333,20 +333,51 @@ def cmpAgrees (signed : Bool) (n : Nat) (l r : CV) : Bool :=
   if (mpaOf l).isSmall && (mpaOf r).isSmall then int64Agrees signed n l && int64Agrees signed n r
   else (mpaOf l).signedVal == typed l && (mpaOf r).signedVal == typed r
 
-/-- Large path (`n > 64`): no theorem covers it; the names describe the known
-failure regions, `wide-unproved` the rest (where the model and the run-time
-circuit are expected to agree). -/
-def hypsWide (op : Op) (signed : Bool) (n : Nat) (l r : CV) : List String :=
+/-- The big image of the `mpa` value is the non-negative number the constant's wires show: `0 ≤ big() < 2^bits`
+(true of every literal, of `-T(v)` and of every folded result for types wider than 64 bits; false for a
+negative `int64` image such as the 64-bit fold of an untyped `-v`). -/
+def imageExact (c : CV) : Bool :=
+  match c with
+  | .int _ v => decide (0 ≤ v.bigv ∧ v.bigv < ((2 ^ v.bits : Nat) : Int))
+  | .bool _ => false
+
+/-- Large `Rsh` is `big.Rsh` (logical on the image): right for an operand that fits `n` bits and, for `intN`,
+is not negative. -/
+def extendedWide (signed : Bool) (n : Nat) (c : CV) : Bool :=
+  match c with
+  | .int _ v => imageExact c && decide (v.bigv < ((2 ^ n : Nat) : Int)) && (!signed || !(seenBV n c).msb)
+  | .bool _ => false
+
+/-- Large `Div`/`Mod` build a SIGNED divider of `max(x.bits, y.bits)` bits whose operands are read as signed
+numbers of their OWN sizes: right for non-negative operands below half their own size (and below 2^(n-1) for
+`intN`); a zero divisor gives `m` ones instead of `n`. -/
+def divWide (signed : Bool) (n : Nat) (l r : CV) : Bool :=
   let x := mpaOf l
   let y := mpaOf r
-  let m := max x.bits y.bits
-  match op with
-  | .div | .mod =>
-    if 0 ≤ x.bigv ∧ 0 ≤ y.bigv ∧ x.bigv < 2 ^ (m - 1) ∧ y.bigv < 2 ^ (m - 1) ∧ y.bigv ≠ 0 then ["wide-unproved"]
-    else ["wide-signed-divider-at-operand-size"]
-  | .shr => if signed && (seenBV n l).msb then ["wide-rsh-not-arithmetic"] else ["wide-unproved"]
-  | .lt | .le | .gt | .ge | .eq | .ne => if cmpAgrees signed n l r then ["wide-unproved"] else ["wide-cmp-sign-from-operand-size"]
-  | _ => ["wide-unproved"]
+  imageExact l && imageExact r &&
+  decide (x.bigv < ((2 ^ (x.bits - 1) : Nat) : Int) ∧ y.bigv < ((2 ^ (y.bits - 1) : Nat) : Int) ∧ y.bigv ≠ 0 ∧
+          x.bigv < ((2 ^ n : Nat) : Int) ∧ y.bigv < ((2 ^ n : Nat) : Int)) &&
+  (!signed || (!(seenBV n l).msb && !(seenBV n r).msb))
+
+/-- Types of large-path operands: the left type (it fixes the receiver `mpa.New(Bits)`) wider than 64 bits and
+at least `n` bits; the right type at least `n` bits unless it is a shift count. -/
+def typesWide (op : Op) (n : Nat) (l r : CV) : Bool :=
+  match l, r with
+  | .int lt _, .int rt _ => decide (64 < lt.bits ∧ n ≤ lt.bits ∧ (op.isShift = true ∨ op = .neg ∨ n ≤ rt.bits))
+  | _, _ => false
+
+/-- Large path (`n > 64`): the hypotheses of the large-path theorems, by name. -/
+def hypsWide (op : Op) (signed : Bool) (n : Nat) (l r : CV) : List String :=
+  let h (name : String) (ok : Bool) : List String := if ok then [] else [name]
+  h "wide-operand-type" (typesWide op n l r) ++
+  (match op with
+   | .add | .sub | .mul | .band | .bor | .bxor | .bclr =>
+     h "wide-operand-image" (imageExact l && imageExact r) ++ h "kind" (sameKind l r)
+   | .shl | .neg => h "wide-operand-image" (imageExact l)
+   | .div | .mod => h "wide-signed-divider-at-operand-size" (divWide signed n l r) ++ h "kind" (sameKind l r)
+   | .shr => h "wide-rsh-not-arithmetic" (extendedWide signed n l)
+   | .lt | .le | .gt | .ge | .eq | .ne => h "wide-cmp-sign-from-operand-size" (cmpAgrees signed n l r)
+   | _ => ["not-an-integer-operator"])
 
 /-- Violated hypotheses of the theorem for `op` (integer operands, `n` bits). -/
 def hyps (op : Op) (signed : Bool) (n : Nat) (l r : CV) : List String :=
